@@ -24,6 +24,7 @@ def seeds():
         elif v.startswith("rc=0"): vv = "**missed** (exit 0)"
         elif v.startswith("rc=2"): vv = "**undecided** (exit 2)"
         else: vv = v[:60]
+        if m.get("retired"): vv = "retired — " + m["retired"]
         note = m.get("check_verdict")
         if note: vv += " — " + note
         needs = str(m.get("needs", "")).replace("|", "\\|").replace("\n", " ")
